@@ -1,6 +1,6 @@
 (* C19 lemmas. *)
 From Coq Require Import String List Bool NArith Lia.
-From OG Require Import C19.Model C19.Gen_Routes.
+From OG Require Import C19.Model C19.Guards C19.Gen_Routes.
 Import ListNotations.
 Open Scope string_scope.
 Open Scope N_scope.
@@ -1033,4 +1033,22 @@ Proof.
     unfold serve in X. cbn [always_rejects r0 r_sig hsig_eqb] in X.
     change (authenticated (mk_shape [mk_wrap SigUser WrapAuth auth_flag] 0 true 0 true 1 0) r0) with true in X. exact X.
   - intros u Hv Hna. rewrite (authenticate_pass_complete _ _ _ _ Ha Hadm Hv). cbn [inner]. rewrite Ha, Hna. reflexivity.
+Qed.
+
+(* ------------------------------------------------------------------------------------------------------------ *)
+(* guard formulas: the kind derived from the source for the routes the statement names, and the formulas cover the table *)
+Lemma expected_dkinds_check : forallb (expected_dkind_ok handler_formulas) expected_dkinds = true.
+Proof. vm_compute. reflexivity. Qed.
+
+Definition has_formula_row (r : route) : bool :=
+  negb (hsig_eqb (r_sig r) SigUser) ||
+  match find_formula handler_formulas (r_method r) (r_pattern r) with Some _ => true | None => false end.
+Lemma formulas_cover_routes_check : forallb has_formula_row routes = true.
+Proof. vm_compute. reflexivity. Qed.
+
+Lemma find_formula_derive_admin : forall m p g cfg u rq q o,
+  find_formula handler_formulas m p = Some g -> derive g = DAdmin ->
+  geval (mk_genv (base_of cfg u (rq_db rq) q) o) g = acts (inner cfg KAdminOnly rq u).
+Proof.
+  intros m p g cfg u rq q o _ Hd. pose proof (derive_sound g) as S. rewrite Hd in S. exact (S cfg u rq q o).
 Qed.
